@@ -165,11 +165,10 @@ class Module:
         elif (isinstance(node, ast.Call) and isinstance(node.func, ast.Attribute) and node.func.attr == "get"
               and isinstance(node.func.value, ast.Attribute) and node.func.value.attr == "opmap"
               and isinstance(node.func.value.value, ast.Name) and node.func.value.value.id == "opcode"
-              and len(node.args) == 1 and isinstance(node.args[0], ast.Constant) and isinstance(node.args[0].value, str)):
-            lean = self.prefix + name
-            self.defs[lean] = (f"/-- `{name} = opcode.opmap.get({node.args[0].value!r})` -/\n"
-                               f"def {lean} : Option Nat := opmapGet {_lean_str(node.args[0].value)}\n", "optnat")
-            res = (lean, "optnat", None)
+              and len(node.args) in (1, 2) and isinstance(node.args[0], ast.Constant) and isinstance(node.args[0].value, str)
+              and (len(node.args) == 1 or (isinstance(node.args[1], ast.Constant) and node.args[1].value is None))):
+            # inlined at its uses (so that renaming the constant changes nothing)
+            res = (f"(opmapGet {_lean_str(node.args[0].value)})", "optnat", None)
         else:
             raise Unsupported(f"module constant {name} = {ast.dump(node)[:80]}")
         self.consts[name] = res
@@ -249,6 +248,10 @@ class FnTr:
         s = stmts[-1]
         if isinstance(s, (ast.Return, ast.Raise)):
             return True
+        if isinstance(s, ast.Expr) and isinstance(s.value, ast.Call) and isinstance(s.value.func, ast.Name) \
+                and s.value.func.id in self.mod.funcs:
+            body = _strip_doc(self.mod.funcs[s.value.func.id])
+            return len(body) == 1 and isinstance(body[0], ast.Raise)      # a helper that only raises
         if isinstance(s, ast.If):
             return bool(s.orelse) and self.always_returns(s.body) and self.always_returns(s.orelse)
         if isinstance(s, ast.For):
@@ -290,12 +293,14 @@ class FnTr:
             self.ret_types.append(ty)
             return [f"{ind}return {t}"]
         if isinstance(s, ast.Raise):
-            e = s.exc
-            if isinstance(e, ast.Call):
-                e = e.func
-            if not (isinstance(e, ast.Name) and e.id in ERRORS):
-                raise Unsupported(f"raise of {ast.dump(s.exc)[:60] if s.exc else 'nothing'}")
-            return [f"{ind}throw {ERRORS[e.id]}"]
+            return [f"{ind}throw {self.error_of(s.exc)}"]
+        if isinstance(s, ast.Expr) and isinstance(s.value, ast.Call) and isinstance(s.value.func, ast.Name) \
+                and s.value.func.id in self.mod.funcs:
+            # a private helper called for its effect: only one that does nothing but raise is understood
+            body = _strip_doc(self.mod.funcs[s.value.func.id])
+            if len(body) == 1 and isinstance(body[0], ast.Raise):
+                return [f"{ind}throw {self.error_of(body[0].exc)}"]
+            raise Unsupported(f"call of {s.value.func.id}() as a statement")
         if isinstance(s, ast.If):
             c = self.cond(s.test)
             if c == "true":                      # compile-time true: only the body
@@ -354,6 +359,24 @@ class FnTr:
             mut = "mut " if self.assigned.get(n, 0) > 1 else ""
             return [f"{ind}let {mut}{_ident(n)} : {LEAN_TY[ty]} := {t}"]
         raise Unsupported(f"statement {type(s).__name__} in {self.name}")
+
+    def error_of(self, e, depth=0):
+        """the exception an expression denotes: `TypeError(...)`, `TypeError`, or a call of a private
+        module-level helper whose body is just `return <such an expression>`"""
+        if e is None or depth > 3:
+            raise Unsupported("bare raise / too deep")
+        if isinstance(e, ast.Call):
+            f = e.func
+            if isinstance(f, ast.Name) and f.id in ERRORS:
+                return ERRORS[f.id]
+            if isinstance(f, ast.Name) and f.id in self.mod.funcs:
+                body = _strip_doc(self.mod.funcs[f.id])
+                if len(body) == 1 and isinstance(body[0], ast.Return) and body[0].value is not None:
+                    return self.error_of(body[0].value, depth + 1)
+                raise Unsupported(f"raise {f.id}(...): {f.id} is not a plain `return <Exception>(...)`")
+        if isinstance(e, ast.Name) and e.id in ERRORS:
+            return ERRORS[e.id]
+        raise Unsupported(f"raise of {ast.dump(e)[:60]}")
 
     def stmts_inline(self, stmts, depth, ind):
         out = []
